@@ -20,6 +20,7 @@
 #include <bxdecay0/genbbsub.h>
 
 #include "../ref/refapi.h"
+#include "common/evtrace.h"
 #include "common/vtrace.h"
 
 static const double TOL_P = 5e-7;   // momentum components, relative to |p| (reference carries 8-digit pi, e-mass)
@@ -345,6 +346,8 @@ static void dump_bb_trace(const vh::Recorder & rec, const vh::PlanSource & src)
   }
 }
 
+static FILE * ev_out = nullptr;
+
 static void emit(const std::string & id, const Result & r, const std::string & extra = "")
 {
   std::printf("{\"id\":\"%s\",\"cls\":\"%s\",\"detail\":\"%s\",\"ndraws\":%zu,\"np\":%zu,\"min_margin\":%.3g,\"pair\":%s,\"sig\":\"%s\"%s}\n",
@@ -392,6 +395,7 @@ int main(int argc, char ** argv)
     if (std::string(argv[i]) == "--trace" && i + 1 < argc) trace_out = std::fopen(argv[++i], "w");
     if (std::string(argv[i]) == "--sch-trace" && i + 1 < argc) sch_out = std::fopen(argv[++i], "w");
     if (std::string(argv[i]) == "--bb-trace" && i + 1 < argc) bb_out = std::fopen(argv[++i], "w");
+    if (std::string(argv[i]) == "--ev-trace" && i + 1 < argc) ev_out = std::fopen(argv[++i], "w");
   }
   std::set<std::string> ref_bkg_inited;
   std::string line;
@@ -468,6 +472,7 @@ int main(int argc, char ** argv)
       }
       dump_trace(id, name, rec, src, ev);
       dump_sch_trace(rec, src);
+      if (r.cls != "port-exception" && r.cls != "port-error") vh::dump_ev_trace(ev_out, id, ev, name, false, 0, 0, 0, 0, false, 0);
       emit(id, r);
     } else if (kind == "D") {
       int level, mode, nev;
@@ -603,6 +608,12 @@ int main(int argc, char ** argv)
         dump_trace(id + ":" + std::to_string(iev), name, rec, src, ev);
         dump_sch_trace(rec, src);
         dump_bb_trace(rec, src);
+        if (r.cls != "port-exception") {
+          int steps = 0;
+          for (const auto & e : rec.evs)
+            if (e.kind == 0 && e.depth >= 2 && e.name != "particle" && e.name != "bb" && e.name.compare(0, 7, "scheme:") != 0) steps++;
+          vh::dump_ev_trace(ev_out, id + ":" + std::to_string(iev), ev, name, true, mode, pars.Qbb, pars.ebb1, pars.ebb2, semin != "x" || semax != "x", steps);
+        }
         emit(id + ":" + std::to_string(iev), r);
       }
     }
@@ -610,5 +621,6 @@ int main(int argc, char ** argv)
   if (trace_out) std::fclose(trace_out);
   if (sch_out) std::fclose(sch_out);
   if (bb_out) std::fclose(bb_out);
+  if (ev_out) std::fclose(ev_out);
   return 0;
 }
